@@ -16,7 +16,7 @@ from gemdat.jumps import Jumps  # noqa: E402
 from gemdat.transitions import Transitions, _calculate_transition_events, _calculate_transitions_matrix  # noqa: E402
 
 PID = 'C05'
-MODULES = ['GProofs.C05']
+MODULES = ['GProofs.Geometry', 'GProofs.C05']
 
 
 def build_system(rng, T=None, A=None, n_sites=None, inner=None, labels_mode=None):
